@@ -185,6 +185,16 @@ func genC07(c *Ctx) {
 			c.Do(Case{Q: q, D: ev.tv, Cls: "named-by-property/empty-lists-behind-pointers/" + ev.name + "/root", InDomain: true})
 		}
 	}
+	// products whose exponent leaves the 32 bits the decimal type has for it: an error, never the decimal package's panic (only
+	// Multiply: the other operations first scale one operand to the other's exponent, which for exponents this far apart is a
+	// question of time and memory, not of the outcome)
+	for _, d := range []*TV{tvF64(1), tvInt("int", "7"), tvStr("3"), &TV{T: "dec", C: "1", E: "2147483647"}, &TV{T: "dec", C: "-5", E: "-2147483648"}, tvMap("str", [][2]any{{hx("a"), &TV{T: "dec", C: "2", E: "2000000000"}}, {hx("b"), tvStr("1e2000000000")}})} {
+		for _, q := range []string{`$.Multiply("1e2000000000")`, `$.Multiply("1e2000000000").Multiply("1e2000000000")`, `$.Multiply("1e-2000000000").Multiply("1e-2000000000")`, `$.Multiply("1e1")`, `$.Multiply("1e-1")`,
+			`$.Multiply(10)`, `$.a.Multiply($.b)`, `$.a.Multiply($.a)`, `$.a.Multiply("1e147483647")`, `$.a.Multiply("1e147483648")`, `$.a.Multiply("1e-2000000000").Multiply("1e-2000000000")`, `$.Multiply("1e2147483647").Multiply("1e-2147483648").Multiply("1e-2147483648")`,
+			`{$.Multiply("1e2000000000").Multiply("1e2000000000").IsNull()}`, `$.AsArray()[@.Multiply("1e2000000000").Multiply("1e2000000000").IsNotNull()]`} {
+			c.Do(Case{Q: q, D: d, Cls: "named-by-property/exponent-out-of-range", InDomain: true})
+		}
+	}
 	// keys that name a field of a struct embedded through a (nil) pointer: not keys of the outer struct
 	emb := tvMap("str", [][2]any{{hx("r"), tvUnexp("E0", tvInt("int", "1"))}, {hx("s"), tvUnexp("E", tvStr("ann"), tvInt("int", "2"), tvInt("int", "3"))},
 		{hx("list"), tvSlice(1, tvUnexp("E0", tvInt("int", "1")), tvUnexp("E", tvStr("bob"), tvInt("int", "2"), tvInt("int", "3")), tvUnexp("E0", tvInt("int", "4")))}})
